@@ -20,22 +20,24 @@ model (and this pin) are revisited. -/
 
 /-- `Model.search` -/
 example : Gen.FactsC02.searchTable = [
-  "models.OperatorEquals: get(query); return item.set",
-  "models.OperatorNotEquals: forEach; skipIf:bytes.Equal(k, queryKey)",
-  "models.OperatorStartsWith: prefixScan(queryKey)",
-  "models.OperatorGreaterThan: start=queryKey; inclusive=false",
+  "models.OperatorEquals: get(query); return v11.set",
   "models.OperatorGreaterOrEq: start=queryKey; inclusive=true",
-  "models.OperatorLessThan: end=queryKey; inclusive=false",
+  "models.OperatorGreaterThan: start=queryKey; inclusive=false",
+  "models.OperatorInRange: start=queryKey; endk=toByteSortable(endQuery); end=endk; inclusive=true",
   "models.OperatorLessOrEq: end=queryKey; inclusive=true",
-  "models.OperatorInRange: start=queryKey; endk=toByteSortable(endQuery); end=endk; inclusive=true"] := rfl
+  "models.OperatorLessThan: end=queryKey; inclusive=false",
+  "models.OperatorNotEquals: forEach; skipIf:bytes.Equal(k, queryKey)",
+  "models.OperatorStartsWith: prefixScan(queryKey)"
+] := rfl
 
 /-- `Model.processChange` -/
 example : Gen.FactsC02.processChangeArms = [
   "change.PreviousData == nil && change.CurrentData == nil => ",
-  "change.PreviousData == nil && change.CurrentData != nil => item(*change.CurrentData); set.set.CheckedAdd",
-  "change.PreviousData != nil && change.CurrentData == nil => item(*change.PreviousData); set.set.CheckedRemove",
-  "*change.PreviousData != *change.CurrentData => item(*change.PreviousData); prevSet.set.CheckedRemove; item(*change.CurrentData); currSet.set.CheckedAdd",
-  "*change.PreviousData == *change.CurrentData => "] := rfl
+  "change.PreviousData == nil && change.CurrentData != nil => item(*change.CurrentData); v3.set.CheckedAdd",
+  "change.PreviousData != nil && change.CurrentData == nil => item(*change.PreviousData); v5.set.CheckedRemove",
+  "*change.PreviousData != *change.CurrentData => item(*change.PreviousData); v7.set.CheckedRemove; item(*change.CurrentData); v9.set.CheckedAdd",
+  "*change.PreviousData == *change.CurrentData => "
+] := rfl
 
 /-- `Model.toChange` / `Model.toArrChange` (skip exactly when both sides are absent) -/
 example : Gen.FactsC02.getOperationArms = [
@@ -48,34 +50,39 @@ example : Gen.FactsC02.getOperationArms = [
 /-- `Model.searchStr`: Value and EndValue are both folded -/
 example : Gen.FactsC02.stringSearch = [
   "if !inv.params.CaseSensitive",
-  "query<-query",
-  "options.EndValue<-options.EndValue",
-  "=> inv.inner.Search(query, options.EndValue, options.Operator)"] := rfl
+  "v3<-v3",
+  "v2.EndValue<-v2.EndValue",
+  "=> inv.inner.Search(v3, v2.EndValue, v2.Operator)"
+] := rfl
 
 /-- `Model.foldChange` -/
 example : Gen.FactsC02.stringWrite = [
   "if !inv.params.CaseSensitive",
-  "*change.CurrentData<-*change.CurrentData",
-  "*change.PreviousData<-*change.PreviousData",
-  "=> inv.inner.InsertUpdateDelete(ctx, out)"] := rfl
+  "*a1.CurrentData<-*a1.CurrentData",
+  "*a1.PreviousData<-*a1.PreviousData",
+  "=> inv.inner.InsertUpdateDelete(v2, v4)"
+] := rfl
 
 /-- `Model.searchStrArr` -/
 example : Gen.FactsC02.stringArraySearch = [
   "if !inv.params.CaseSensitive",
-  "query[i]<-query[i]",
-  "=> inv.inner.Search(query, options.Operator)"] := rfl
+  "v3[v4]<-v3[v4]",
+  "=> inv.inner.Search(v3, v2.Operator)"
+] := rfl
 
 /-- `Model.foldArrChange` -/
 example : Gen.FactsC02.stringArrayWrite = [
   "if !inv.params.CaseSensitive",
-  "change.CurrentData[i]<-change.CurrentData[i]",
-  "change.PreviousData[i]<-change.PreviousData[i]",
-  "=> inv.inner.InsertUpdateDelete(ctx, out)"] := rfl
+  "a1.CurrentData[a2]<-a1.CurrentData[a2]",
+  "a1.PreviousData[a3]<-a1.PreviousData[a3]",
+  "=> inv.inner.InsertUpdateDelete(v2, v4)"
+] := rfl
 
 /-- `Model.searchArr` -/
 example : Gen.FactsC02.arraySearch = [
-  "each: inv.inner.Search(q, q, models.OperatorEquals)",
-  "models.OperatorContainsAll => finalSet = roaring64.FastAnd(resList...)",
-  "models.OperatorContainsAny => finalSet = roaring64.FastOr(resList...)"] := rfl
+  "each: inv.inner.Search(v6, v6, models.OperatorEquals)",
+  "models.OperatorContainsAll => v9 = roaring64.FastAnd(v4...)",
+  "models.OperatorContainsAny => v9 = roaring64.FastOr(v4...)"
+] := rfl
 
 end Sema.C02
